@@ -1133,3 +1133,102 @@ func containsNamePredicate(info *types.Info, call *ast.CallExpr, nameTest func(a
 	eq, is := nameTest(ret.Results[0])
 	return is && eq
 }
+
+// c13CloseAll: the close-all marker [/] closes every open marker once. In the function that pairs markers, the arm that
+// ranges over the list of open markers and appends one attribute per element must leave that list empty (L = L[:0],
+// L = nil or an empty literal, as a statement of the arm after the loop): otherwise every later close marker, and the
+// next close-all, would close the same markers again.
+func c13CloseAll(c *Ctx) {
+	w := c.W
+	mp := w.Pkg("markup")
+	info := mp.TypesInfo
+	found := 0
+	for _, f := range w.FuncsIn(mp) {
+		if f.Body == nil || f.Lit != nil {
+			continue
+		}
+		walkNoLit(f.Body, func(q ast.Node) bool {
+			rs, ok := q.(*ast.RangeStmt)
+			if !ok {
+				return true
+			}
+			lid := identOf(rs.X)
+			if lid == nil {
+				return true
+			}
+			lobj, ok := info.Uses[lid].(*types.Var)
+			if !ok || lobj.IsField() {
+				return true
+			}
+			if tv, ok := info.Types[rs.X]; !ok || typeStr(tv.Type) != "[]markup.attributeMarker" {
+				return true
+			}
+			// the body appends an Attribute per element
+			appends := false
+			walkNoLit(rs.Body, func(z ast.Node) bool {
+				if call, ok := z.(*ast.CallExpr); ok && isBuiltin(info, call, "append") && len(call.Args) == 2 {
+					if tv, ok := info.Types[call.Args[0]]; ok && typeStr(tv.Type) == "[]markup.Attribute" {
+						appends = true
+					}
+				}
+				return true
+			})
+			if !appends {
+				return true
+			}
+			// is the ranged list the one open markers are appended to?
+			isOpenList := false
+			walkNoLit(f.Body, func(z ast.Node) bool {
+				if as, ok := z.(*ast.AssignStmt); ok && len(as.Lhs) == 1 && len(as.Rhs) == 1 {
+					if id := identOf(as.Lhs[0]); id != nil && info.Uses[id] == types.Object(lobj) {
+						if call, ok := unparen(as.Rhs[0]).(*ast.CallExpr); ok && isBuiltin(info, call, "append") {
+							isOpenList = true
+						}
+					}
+				}
+				return true
+			})
+			if !isOpenList {
+				return true
+			}
+			found++
+			c.fn(f)
+			list := stmtListOf(w, rs)
+			emptied := false
+			after := false
+			for _, st := range list {
+				if st == ast.Stmt(rs) {
+					after = true
+					continue
+				}
+				if !after {
+					continue
+				}
+				as, ok := st.(*ast.AssignStmt)
+				if !ok || len(as.Lhs) != 1 || len(as.Rhs) != 1 || as.Tok != token.ASSIGN {
+					continue
+				}
+				if id := identOf(as.Lhs[0]); id == nil || info.Uses[id] != types.Object(lobj) {
+					continue
+				}
+				switch r := unparen(as.Rhs[0]).(type) {
+				case *ast.SliceExpr:
+					if hid := identOf(r.X); hid != nil && info.Uses[hid] == types.Object(lobj) && r.Low == nil && r.High != nil {
+						if tv, ok := info.Types[r.High]; ok && tv.Value != nil && tv.Value.ExactString() == "0" {
+							emptied = true
+						}
+					}
+				case *ast.CompositeLit:
+					emptied = len(r.Elts) == 0
+				default:
+					emptied = isNilExpr(info, as.Rhs[0])
+				}
+			}
+			c.ob("C13.R15", f.Name+"/close-all-empties-the-open-list", w.Pos(rs.Pos()), emptied, map[bool]string{true: "after one attribute per open marker, the list of open markers is emptied", false: "the arm that closes every open marker leaves them in the list of open markers: a later close marker or close-all would close them a second time"}[emptied])
+			return true
+		})
+	}
+	if found == 0 {
+		c.undecided("C13.R15", "no range over the list of open markers that appends attributes (the close-all arm) found")
+	}
+}
